@@ -801,8 +801,15 @@ fn seq_one(id: u64, rng: &mut StdRng, p: &SeqParams, panics: &Arc<AtomicU64>) ->
             break;
         }
         let roll = rng.gen_range(0..100);
-        let k = rng.gen_range(0..p.keys);
-        let v = rng.gen_range(0..p.vals);
+        let mut k = rng.gen_range(0..p.keys);
+        let mut v = rng.gen_range(0..p.vals);
+        if big_done && rng.gen_range(0..2) == 0 {
+            // work on the large set: remove / re-insert some of its elements
+            k = 0;
+            if rng.gen_range(0..2) == 0 {
+                v = 200 + rng.gen_range(0..6) * 170;
+            }
+        }
         let w = if p.big && !big_done && p.kind == Kind::Set && rng.gen_range(0..6) == 0 {
             // cross the spill threshold on key 0 (elements 200..): submit what
             // is open, bulk-insert through a batch of its own and commit
@@ -1017,6 +1024,9 @@ fn par_one(id: u64, rng: &mut StdRng, p: &ParParams, panics: &Arc<AtomicU64>) ->
                 sh.chaos_release.insert(c);
                 rig.cv.notify_all();
             }
+        } else if roll < 8 {
+            // eviction pressure from the controller (never stalled by the hook)
+            futures::executor::block_on(rig.flood(rng.gen_range(20..120)));
         } else {
             std::thread::sleep(Duration::from_micros(rng.gen_range(10..300)));
         }
@@ -1135,8 +1145,8 @@ fn main() {
                     cap: caps[rng.gen_range(0..caps.len())],
                     keys: rng.gen_range(1..4),
                     vals: rng.gen_range(2..4),
-                    writers: rng.gen_range(1..3),
-                    readers: rng.gen_range(1..4),
+                    writers: rng.gen_range(1..=util::arg_u64(&a, "maxw", 2) as usize),
+                    readers: rng.gen_range(1..=util::arg_u64(&a, "maxr", 2) as usize),
                     ops: util::arg_u64(&a, "ops", 12) as usize,
                     chaos_pm: util::arg_u64(&a, "chaos", 300),
                 };
